@@ -7,10 +7,10 @@ BASELINE_OFF = "cd /repo && cargo nextest run --workspace --no-fail-fast --tool-
 CHECKS = {
  "C01": dict(sim="store", level="exploration", ref="5 C01",
    text="Seeded search over multi-key put/overwrite/remove/read histories on the real SwarmDriver + NodeRecordStore (real files, shipped encrypt-records configuration) with the simulator choosing which parked background task (file write, delete, completion notification) runs next and injecting disk-write errors; every read is checked against the set of values ever written for that key and, at quiescence, against a sequential map model. Sampling, not proof: a clean batch is evidence.",
-   note="Trusted: a gated task body is atomic w.r.t. other gated bodies (single-threaded runtime); same-key tasks kept in issue order (the property quantifies over orders between keys); the simulator replaces SwarmDriver::run; tmpfs file semantics; getrandom shim is the only entropy source.",
+   note="Trusted: a gated task body is atomic w.r.t. other gated bodies (single-threaded runtime); same-key tasks kept in issue order in C01 (the property quantifies over orders between keys; C02 runs any order); the simulator replaces SwarmDriver::run; tmpfs file semantics; getrandom shim is the only entropy source.",
    technique="deterministic simulation: gate-scheduled background tasks + disk-fault injection, map-model oracle"),
  "C02": dict(sim="store", level="fault_enumeration", ref="5 C02",
-   text="Histories are sampled by seed; inside each history the crash space is enumerated: after every executed background task the directory is copied and a fresh NodeRecordStore opened on it, and for every executed record write every byte prefix of the new file (with and without zero-filled tail) and bit flips are probed (all prefixes in thorough, 6 per write in quick); sampled Crash steps restart the whole driver. Oracle: durable-file model (complete value / absent / torn).",
+   text="Histories are sampled by seed; inside each history the crash space is enumerated: after every executed background task the directory is copied and a fresh NodeRecordStore opened on it, and for every executed record write every byte prefix of the new file (with and without zero-filled tail) and bit flips are probed (all prefixes in thorough, 6 per write in quick); sampled Crash steps restart the whole driver; parked tasks of one key run in any order, and in a fifth of the runs the store's capacity equals the number of keys so that restarts meet a store filled to capacity. Oracle: durable-file model (complete value / absent / torn).",
    note="Crash model = process stop with surviving OS (completed fs::write durable; no power-loss/fsync model). Probes use NodeRecordStore::with_config on a copy; full-driver restarts go through the guarded constructor that mirrors build_node's store configuration.",
    technique="deterministic simulation: crash-point and torn-write enumeration per sampled history, durable-state oracle"),
  "C10": dict(sim="store", level="exploration", ref="5 C10",
@@ -18,7 +18,7 @@ CHECKS = {
    note="Trusted: as C01. Distances recomputed as sha256(a) xor sha256(b) by the harness. records_cache_size never 0.",
    technique="deterministic simulation: gate-scheduled background tasks + restarts, step-by-step capacity/eviction/metrics model"),
  "C03": dict(sim="node", level="exploration", ref="5 C03",
-   text="Seeded search over sequences of client uploads (all kinds, paid and unpaid) to one real Node + SwarmDriver + store with 24 simulated neighbours, each paid upload carrying a payment condition vector (signatures, payee membership, payee closeness, expiry/future dating, per-quote on-chain result, RPC failure, own quote issued for another address) with mostly exactly one condition broken; after each upload is fully processed the store delta, the result and the payment-received notification are compared with the statement.",
+   text="Seeded search over sequences of client uploads (all kinds, paid and unpaid) to one real Node + SwarmDriver + store with 7-40 simulated neighbours (sparse and full routing tables) and a record cache of 1, 2 or 25 entries, each paid upload carrying a payment condition vector (signatures, payee membership, payee closeness, undecodable payee, expiry/future dating, per-quote on-chain result, RPC failure, own quote issued for another address) with mostly exactly one condition broken; after each upload is fully processed the store delta, the result and the payment-received notification are compared with the statement.",
    note="Trusted: the simulator is the event loop/transport/ledger (real handlers called through guarded pass-throughs; verifyPayment answered by the in-process ledger shim); quote timestamps >= 10 min from the expiry boundary; shipped cache size.",
    technique="deterministic simulation: real node handlers under a simulated transport/ledger, byzantine payment proofs, condition-vector oracle"),
  "C04": dict(sim="node", level="exploration", ref="5 C04",
@@ -26,19 +26,19 @@ CHECKS = {
    note="Trusted: as C03. The size limit is checked on the RecordStore::put path only (where the code enforces it).",
    technique="deterministic simulation: byzantine (key, content) presentations on three entry paths, independent key-derivation oracle"),
  "C07": dict(sim="node", level="exploration", ref="5 C07",
-   text="Seeded search over paid uploads, unpaid updates and replicated copies of scratchpads (counters, signers, signature validity), transaction sets and registers (op sets, signers); configuration 'sequential' compares the store with a monotone/union model after every delivery, configuration 'concurrent' keeps 2-3 deliveries to one key in flight while the simulator interleaves the handling of their commands and disk writes in seeded order, and requires the order-independent merge at the end.",
+   text="Seeded search over paid uploads, unpaid updates and replicated copies of scratchpads (counters, signers, signature validity, content substituted under a genuine signature), transaction sets (incl. another owner's validly signed entries) and registers (op sets; owner, listed writer, stranger, and ops forged in a permitted writer's name); record cache of 1, 2 or 25 entries; configuration 'sequential' compares the store with a monotone/union model after every delivery, configuration 'concurrent' keeps 2-3 deliveries to one key in flight while the simulator interleaves the handling of their commands and disk writes in seeded order, and requires the order-independent merge at the end; configuration 'lagging_writes' validates deliveries one after another while disk writes and their acknowledgements are held back (the index lags what was accepted) and requires that an acknowledged delivery is what the node serves.",
    note="Trusted: as C03. In the concurrent configuration equal-counter scratchpads may resolve either way.",
    technique="deterministic simulation: gate-scheduled interleaving of overlapping updates to one key, monotone/union model oracle"),
  "C05": dict(sim="getrecord", level="exploration", ref="5 C05",
-   text="Seeded search over 1-4 concurrent callers of the real Network::get_record_from_network for one key (own quorum / expected record each) and a stream of kad progress events fed to the real SwarmDriver handlers in seeded order: FoundRecord from up to 8 peers holding up to 4 versions (opaque, registers incl. unverifiable, transaction sets, scratchpads valid/unsigned/forged, mixed kinds), duplicates, changed answers, late callers, and every terminal event. Each caller's outcome is judged against its own quorum and target: Ok needs >= Q distinct peers with byte-identical content matching the target, or the reference merge of the delivered versions; every caller gets exactly one outcome and no query entry survives its terminal event.",
+   text="Seeded search over 1-4 concurrent callers of the real Network::get_record_from_network for one key (own quorum One / Majority / All / N(1..8) and expected record each) and a stream of kad progress events fed to the real SwarmDriver handlers in seeded order: FoundRecord from up to 8 peers holding up to 4 versions (opaque, registers incl. unverifiable, transaction sets, scratchpads valid/unsigned/forged, mixed kinds), duplicates, changed answers, late callers, and every terminal event. Each caller's outcome is judged against its own quorum and target: Ok needs >= Q distinct peers with byte-identical content matching the target, or the reference merge of the delivered versions; when differing versions had been delivered before the read completed, Ok must be their merge even if one version reached the quorum; every caller gets exactly one outcome and no query entry survives its terminal event. Every run is executed a second time under different HashMap seeds with byte-identical records and must give the same outcomes (hash-order metamorphic check).",
    note="Trusted: the simulator plays libp2p's kad query engine by emitting the kad::Event values the engine emits; caller cancellation not injected; back-off retries only with a single caller (unseeded jitter).",
    technique="deterministic simulation: synthetic kad progress events in seeded order against the real accumulation handlers, per-caller quorum/merge oracle"),
  "C14": dict(sim="client", level="exploration", ref="5 C14",
-   text="Seeded search over inputs drawn around the self-encryption size-class boundaries (0..2 bytes, 3, k*MAX_CHUNK_SIZE +/- 1, random; random and repetitive content): the real encrypt() is run twice (chunk size, content addressing by an independent sha3-256, determinism), then the real Client::data_get_public reads the data back while the simulator completes the chunk queries in seeded order with duplicated replies; in mode fault one chunk query is answered not-found / timeout and the read must fail. Two builds are run: default (1 MiB chunks) and MAX_CHUNK_SIZE=4096, where inputs of a few hundred KiB need several data-map levels.",
+   text="Seeded search over inputs drawn around the self-encryption size-class boundaries (0..2 bytes, 3, k*MAX_CHUNK_SIZE +/- 1, random; random and repetitive content): the real encrypt() is run twice (chunk size, content addressing by an independent sha3-256, determinism), then the real Client::data_get_public reads the data back while the simulator completes the chunk queries in seeded order with duplicated replies; in mode fault one chunk query is answered not-found / timeout and the read must fail. Two builds are run: default (1 MiB chunks) and MAX_CHUNK_SIZE=1024, where inputs of 150-420 KiB need three data-map levels (four in the thorough tier; the harness counts levels itself).",
    note="Trusted: the simulator plays the holders and the kad query engine; MAX_CHUNK_SIZE is compile-time (two builds); CHUNK_DOWNLOAD_BATCH_SIZE fixed to 3; upload/payment paths not exercised.",
    technique="deterministic simulation: seeded completion order and failure of chunk fetches against the real client read path, round-trip oracle"),
  "C15": dict(sim="client", level="exploration", ref="5 C15",
-   text="Seeded search over client reads (chunk_get, data_get_public, fetch_and_decrypt_vault) against byzantine holders: one query answered with another valid chunk, a foreign chunk, the right bytes under the wrong kind or undecodable bytes; vault reads answered with seeded sets of scratchpads (valid with chosen counters, unsigned, signed by another key, inflated counter, another owner's) from up to 8 peers and any terminal event. Ok must hash to the requested address / equal the original data; a vault Ok must be the owner's validly signed pad with the highest counter delivered, else Err.",
+   text="Seeded search over client reads (chunk_get, data_get_public, fetch_and_decrypt_vault) against byzantine holders: one query answered with another valid chunk, a foreign chunk, a valid chunk under its own (other) key, the right bytes under the wrong kind or undecodable bytes; vault reads answered with seeded sets of scratchpads (valid with chosen counters, unsigned, signed by another key, inflated counter, another owner's, content substituted under the genuine counter and signature) from up to 8 peers, several holders returning byte-identical copies so that a version can reach the read's quorum, and any terminal event. Ok must hash to the requested address / equal the original data; a vault Ok must be the owner's validly signed pad with the highest counter among those received while the read was open, else Err.",
    note="Trusted: as C14.",
    technique="deterministic simulation: byzantine holder replies against the real client read path, authenticity oracle"),
  "C06": dict(sim="registers", level="exploration", ref="5 C06",
@@ -54,7 +54,7 @@ CHECKS = {
    note="Trusted: real threads are released one at a time through a condvar handshake (no sleeps decide outcomes); wall-clock stamps kept away from boundaries; a run is re-executed when preemption inside the clock-sensitive trim loop exceeded the stamp gap.",
    technique="deterministic simulation: gate-scheduled interleaving of real flusher threads on one file, file-corruption and crash faults, bounds/merge/atomic-replace model"),
  "C19": dict(sim="services", level="exploration", ref="5 C19",
-   text="Seeded search over sequences of antctl invocations (add, start, stop, remove, upgrade, status), each mirrored step by step from cmd/node.rs as a fresh 'process' (NodeRegistry::load, refresh, real add_node / ServiceManager operation, save) over a simulated OS implementing ServiceControl and RpcActions (installed definitions, process table, port allocators); the n-th OS/RPC call of an operation fails with an error the real implementation can return (one chosen step per plan has every failing-call index enumerated), external events (process death, manual uninstall) and registry-file corruption happen between steps. After every invocation the registry file is checked against the simulated OS.",
+   text="Seeded search over sequences of antctl invocations (add, start, stop, remove, upgrade, status), each mirrored step by step from cmd/node.rs as a fresh 'process' (NodeRegistry::load, refresh, real add_node / ServiceManager operation, save) over a simulated OS implementing ServiceControl and RpcActions (installed definitions, process table, port allocators); the n-th OS/RPC call of an operation fails with an error the real implementation can return (one chosen step per plan has every failing-call index enumerated), external events (process death, manual uninstall) and registry-file corruption happen between steps, and a managed process can die right before the n-th OS/RPC call inside one invocation. After every invocation the registry file is checked against the simulated OS.",
    note="Trusted: the antctl glue in cmd/node.rs hard-wires the real ServiceController/RpcClient and is mirrored, not run; std::thread::sleep waits are behind the trait (simulated time).",
    technique="deterministic simulation: simulated OS / RPC with failing-call injection under the real service-management code, registry-vs-OS oracle"),
  "C20": dict(sim="services", level="exploration", ref="5 C20",
@@ -62,8 +62,8 @@ CHECKS = {
    note="Trusted: as C19; the hooked antnode binary is built from /repo's working tree by the check.",
    technique="deterministic simulation: persisted lifecycle under a simulated OS, translation check of argument lists through the real antnode parser"),
  "C09": dict(sim="cluster", level="exploration", ref="5 C09",
-   text="Seeded search over 2-3 full real nodes in one process (Node + SwarmDriver + store + fetcher each, routing tables containing each other): seeded client uploads of all kinds incl. divergent versions of one mutable record at different nodes, replication rounds (clock past the throttle, TriggerIntervalReplication, Replicate lists, GetReplicatedRecord fetches, store_replicated_in_record) over a simulated transport that delays, reorders, duplicates and loses messages and injects advertisements from a peer that is not among the closest; after the faults stop, 6 clean rounds must leave byte-identical immutable records and converged mutable records on all nodes; every periodic Replicate list must equal the sender's held set.",
-   note="Trusted: the simulator carries the same Request/Response values between the real handlers (libp2p stubbed); all nodes mutual replication candidates, no responsible range, spare capacity; Instant deadlines aged through the guarded hook.",
+   text="Seeded search over 2-3 full real nodes in one process (Node + SwarmDriver + store + fetcher each, routing tables containing each other): seeded client uploads of all kinds incl. divergent versions of one mutable record at different nodes, replication rounds (clock past the throttle, TriggerIntervalReplication, Replicate lists, GetReplicatedRecord fetches, store_replicated_in_record) over a simulated transport that delays, reorders, duplicates and loses messages, partitions pairs of nodes, and injects advertisements from a peer that is not among the closest; nodes are stopped and restarted from their directories, get responsible ranges, have a record cache of 1, 2 or 25 entries, and the first disk write of a replicated copy can fail once; after the faults stop, 6 clean rounds must leave byte-identical immutable records and converged mutable records in the index of every node for which the record is in range; every periodic Replicate list must equal the sender's index as it was when the trigger was handled, and every advertised content hash must be the hash of the record held.",
+   note="Trusted: the simulator carries the same Request/Response values between the real handlers (libp2p stubbed); all nodes mutual replication candidates, spare capacity; restarts are clean stops (local work completes first, messages stay in transit); Instant deadlines aged through the guarded hook.",
    technique="deterministic simulation: several real nodes over a simulated lossy transport, bounded-convergence oracle after faults stop"),
 }
 
